@@ -134,6 +134,7 @@ def run(prog, chk):
 
     removal_rules(prog, chk)
     unit_rules(prog, chk)
+    offset_not_clamped_rule(prog, chk)
     chk.rule("R6.8", "every yes/no test `is this an associative/indexed array` in brush_core answers yes for the declared-but-unassigned kind "
                      "(ShellValue::Unset(kind)) as well — reads, writes and `${m[k]:=w}` agree on how a subscript is evaluated")
     nk = array_kind_agreement(prog, chk, "R6.8", {"brush_core"}, "`declare -A m; : ${m[key]:=v}` evaluates `key` arithmetically and stores the value under 0")
@@ -423,3 +424,31 @@ def array_kind_agreement(prog, chk, rid, crates, what):
                              "ShellValue::is_associative_array and the subscript handling of reads and assignments say yes: %s"
                              % (fn, kind, kind, b.loc(b.blocks[sbb].term.line), what))
     return n
+
+
+def offset_not_clamped_rule(prog, chk):
+    """R6.9: in `${v:offset:length}` an offset that points before the start (a negative offset larger than the value) selects nothing;
+    it is not pulled back to the first character. The offset handed to polymorphic_subslice must not pass through a clamping operation
+    (Ord::max / cmp::max / clamp / saturating arithmetic)."""
+    from dataflow import flow_back
+    chk.rule("R6.9", "the substring offset reaches polymorphic_subslice without being clamped to the start (no max / clamp / saturating_* on its flow)")
+    fnname = "brush_core::expansion::WordExpander::expand_parameter_expr"
+    b = prog.impl_body(fnname)
+    if not chk.anchor("R6.9", fnname, b):
+        return
+    d = defs_of(b)
+    n = 0
+    for bb, t in b.calls():
+        if not (t.best_callee() or "").endswith("Expansion::polymorphic_subslice") or len(t.args) < 2:
+            continue
+        n += 1
+        vias = {v for f in flow_back(b, d, t.args[1], all_args=True) for v in f.via}
+        clamps = sorted(v for v in vias if v.rsplit("::", 1)[-1] in ("max", "clamp", "saturating_add", "saturating_sub", "max_by", "max_by_key")
+                        or v.endswith(("cmp::max", "Ord::max", "Ord::clamp")))
+        if clamps:
+            chk.fail("R6.9", fnname, "offset-clamped-to-start",
+                     "the offset of `${v:offset:length}` goes through %s before the slice is taken: a negative offset that reaches past the start selects from the first "
+                     "character instead of selecting nothing — `x=abcdef; ${x: -7}` gives `abcdef` (bash: empty)" % short(clamps[0]))
+        else:
+            chk.ok("R6.9", "offset-unclamped@line-class-%d" % n, "no clamping operation on the offset's data flow", function=fnname)
+    chk.floor("R6.9", "polymorphic_subslice calls in the Substring arm", n, 1)
